@@ -33,7 +33,20 @@ func (c *Ctx) scopePkg(names ...string) map[*ssa.Function]bool {
 	return out
 }
 
-// lockTargets: every struct of the given packages with a sync.Mutex field.
+// allMutexFields: every sync.Mutex field of the struct, in declaration order.
+func allMutexFields(named *types.Named) []string {
+	var out []string
+	if st, ok := named.Underlying().(*types.Struct); ok {
+		for i := 0; i < st.NumFields(); i++ {
+			if isNamed(st.Field(i).Type(), "sync", "Mutex") {
+				out = append(out, st.Field(i).Name())
+			}
+		}
+	}
+	return out
+}
+
+// lockTargets: every struct of the given packages with a sync.Mutex field (mapped to its first mutex field).
 func (c *Ctx) lockTargets(pkgs ...string) map[*types.Named]string {
 	out := map[*types.Named]string{}
 	for _, pn := range pkgs {
@@ -164,10 +177,11 @@ func init() {
 			"the mutex and mutable after construction; shared cbor encoders, the client's pending table, signal table and running flag are required to be guarded) and every " +
 			"access outside construction holds the mutex on all paths (must-lockset dataflow, helpers inherit the locks of all call sites, a goroutine started inside a " +
 			"critical section and joined before the unlock counts as inside). This is the structural part of 'never corrupted by interleaved writes / delivered to a different " +
-			"run'. R-EXACTLYONE / R-DOM - each step-runner path emits exactly one terminal message and the step is called once with the unserialized input; R-RUNID - every run-ID position (RunID fields, keys of the run tables, run-ID parameters; tables and parameters inferred to a fixpoint) is fed by a run ID passed through unchanged. R-FRESHDEC - the target of every Decode inside a message loop is allocated per iteration (a message that omits a field cannot inherit the previous message's). NOT decided: interleavings as such, transport chunking, CBOR fidelity, equality of results with in-process calls.",
+			"run'. R-EXACTLYONE / R-DOM - each step-runner path emits exactly one terminal message and the step is called once with the unserialized input; R-RUNID - every run-ID position (RunID fields, keys of the run tables, run-ID parameters; tables and parameters inferred to a fixpoint) is fed by a run ID passed through unchanged. R-FRESHDEC - the target of every Decode inside a message loop is allocated per iteration (a message that omits a field cannot inherit the previous message's). R-ONEDECODER - the client has exactly one CBOR stream decoder, created in its constructor. NOT decided: interleavings as such, transport chunking, CBOR fidelity, equality of results with in-process calls.",
 		Assumptions: []string{"callers that obtain the raw codec through the exported Encoder()/Decoder() accessors are outside the premise",
 			"the 60 s send time-out arm of sendRuntimeMessage (transport stall) is outside the premise"},
 		Rules: []func(*Ctx){
+			func(c *Ctx) { c.ruleOneDecoder("R-ONEDECODER") },
 			func(c *Ctx) { c.ruleFreshDecode("R-FRESHDEC", c.scopePkg("atp")); c.R.Floor("R-FRESHDEC", 2) },
 			func(c *Ctx) { c.ruleLockset("R-LOCKSET", c.lockTargets("atp", "schema")); c.R.Floor("R-LOCKSET", 15) },
 			func(c *Ctx) { c.ruleExactlyOne("R-EXACTLYONE") },
@@ -182,15 +196,16 @@ func init() {
 			"tables happens in one critical section; R-MUSTPASS - every exit of the read loop has cleared the running flag since the last read; R-PAIR - the result store is " +
 			"followed by Signal in the same critical section and Wait is guarded by a test of the condition; R-WG - Add dominates each go whose goroutine calls Done, Done is " +
 			"reached on every exit, Close cancels the context before every wait; R-BLOCKLOCK - no blocking operation under the client mutex except the encoder write (one " +
-			"documented exception). R-IDLECHECK - every path from one Decode of the read loop to the next passes the call that clears the running flag when nothing is pending. R-BLOCKLOCK has no exception any more: the signal hand-over under the mutex is a demonstrated deadlock (known finding). NOT decided: liveness under all schedules as such; deadlocks that need reasoning about the peer.",
+			"documented exception). R-IDLECHECK - every path from one Decode of the read loop to the next passes the call that clears the running flag when nothing is pending. R-BLOCKLOCK has no exception any more: the signal hand-over under the mutex is a demonstrated deadlock (known finding). R-ONEDECODER - the client has exactly one CBOR stream decoder, created in its constructor. NOT decided: liveness under all schedules as such; deadlocks that need reasoning about the peer.",
 		Assumptions: []string{"sync.Cond has no spurious wake-ups (Go semantics)", "the peer behaves correctly (property premise)"},
 		Rules: []func(*Ctx){
+			func(c *Ctx) { c.ruleOneDecoder("R-ONEDECODER") },
 			func(c *Ctx) { c.ruleIdleCheck("R-IDLECHECK") },
 			func(c *Ctx) { c.ruleAtomic("R-ATOMIC"); c.R.Floor("R-ATOMIC", 4) },
 			func(c *Ctx) { c.ruleMustPass("R-MUSTPASS") },
 			func(c *Ctx) { c.rulePair("R-PAIR") },
 			func(c *Ctx) { c.ruleWG("R-WG"); c.R.Floor("R-WG", 8) },
-			func(c *Ctx) { c.ruleBlockLock("R-BLOCKLOCK"); c.R.Floor("R-BLOCKLOCK", 2) },
+			func(c *Ctx) { c.ruleBlockLock("R-BLOCKLOCK"); c.R.Floor("R-BLOCKLOCK", 1) },
 		},
 	})
 	register(&PropSpec{
